@@ -125,6 +125,97 @@ example : accepts "a\\nb \\u00e9 \\\" x".toList = true := by decide
 example : accepts "a\\qb".toList = false := by decide
 example : escape ['a', '\n', '"', Char.ofNat 1] = "a\\n\\\"\\u0001".toList := by decide
 
+/-! ### `\u` escapes and UTF-16 surrogate pairs (`Gen/StrEscapes.lean` is regenerated from
+`unescape_string`: escape table, surrogate ranges and the recombination arithmetic) -/
+
+/-- the regenerated pieces are the JSON ones: the surrogate ranges, every escape letter the lexer
+admits has an arm in `unescape_string`, and the arms denote the documented characters -/
+theorem escapes_table_spec :
+    (Gen.StrEscapes.highLo, Gen.StrEscapes.highHi, Gen.StrEscapes.lowLo, Gen.StrEscapes.lowHi) =
+      (0xD800, 0xDC00, 0xDC00, 0xE000) ∧
+    Gen.StrEscapes.lexerEscapes.all (fun e => (simpleEscape (Char.ofNat e)).isSome) = true ∧
+    Gen.StrEscapes.simpleTable.all (fun p => Gen.StrEscapes.lexerEscapes.contains p.1) = true ∧
+    (simpleEscape 'n' = some '\n' ∧ simpleEscape 't' = some '\t' ∧ simpleEscape 'r' = some '\r' ∧
+      simpleEscape 'b' = some (Char.ofNat 8) ∧ simpleEscape 'f' = some (Char.ofNat 12) ∧
+      simpleEscape '"' = some '"' ∧ simpleEscape '\\' = some '\\' ∧ simpleEscape '/' = some '/') := by
+  refine ⟨by decide, by decide, by decide, ?_⟩
+  decide
+
+/-- the recombination arithmetic found in the Rust source is the UTF-16 formula for **all**
+1024 × 1024 surrogate pairs and always yields a supplementary-plane scalar value -/
+theorem surrogate_combine (hi lo : Nat) (h1 : 0xD800 ≤ hi) (h2 : hi < 0xDC00) (h3 : 0xDC00 ≤ lo) (h4 : lo < 0xE000) :
+    Gen.StrEscapes.combine hi lo = 0x10000 + (hi - 0xD800) * 0x400 + (lo - 0xDC00) ∧
+      0x10000 ≤ Gen.StrEscapes.combine hi lo ∧ Gen.StrEscapes.combine hi lo ≤ 0x10FFFF :=
+  combine_spec hi lo h1 h2 h3 h4
+
+/-- a pair of escapes `\uHHHH\uLLLL` (any spelling of the hexadecimal digits) with `hi` a high and
+`lo` a low surrogate denotes exactly the scalar value `0x10000 + (hi-0xD800)*0x400 + (lo-0xDC00)` -/
+theorem decode_surrogate_pair (a b c d a' b' c' d' : Char) (hi lo : Nat)
+    (hh : hex4 a b c d = some hi) (hl : hex4 a' b' c' d' = some lo)
+    (h1 : 0xD800 ≤ hi) (h2 : hi < 0xDC00) (h3 : 0xDC00 ≤ lo) (h4 : lo < 0xE000) :
+    lowerStr ['\\', 'u', a, b, c, d, '\\', 'u', a', b', c', d'] =
+      some [Char.ofNat (0x10000 + (hi - 0xD800) * 0x400 + (lo - 0xDC00))] := by
+  show decodeF 12 _ = _
+  rw [decodeF_u, readU_pair a b c d a' b' c' d' [] hi lo hh hl h1 h2 h3 h4]
+  rfl
+
+/-- a single escape outside the surrogate range denotes its code point -/
+theorem decode_bmp_escape (a b c d : Char) (n : Nat) (h : hex4 a b c d = some n) (hs : n < 0xD800 ∨ 0xDFFF < n) :
+    lowerStr ['\\', 'u', a, b, c, d] = some [Char.ofNat n] := by
+  have hb : n < 0x10000 := by
+    unfold hex4 at h
+    split at h
+    · rename_i hx
+      simp only [Bool.and_eq_true] at hx
+      have bound : ∀ ch, isHex ch = true → hexVal ch < 16 := by
+        intro ch hc
+        simp only [isHex, Bool.or_eq_true, Bool.and_eq_true, decide_eq_true_eq] at hc
+        have e1 : ('0' : Char).toNat = 48 := rfl
+        have e2 : ('9' : Char).toNat = 57 := rfl
+        have e3 : ('a' : Char).toNat = 97 := rfl
+        have e4 : ('f' : Char).toNat = 102 := rfl
+        have e5 : ('A' : Char).toNat = 65 := rfl
+        have e6 : ('F' : Char).toNat = 70 := rfl
+        simp only [Char.le_def, UInt32.le_iff_toNat_le] at hc
+        unfold hexVal
+        simp only [Bool.and_eq_true, decide_eq_true_eq, Char.le_def, UInt32.le_iff_toNat_le]
+        have t : ∀ x : Char, x.val.toNat = x.toNat := fun _ => rfl
+        simp only [t, e1, e2, e3, e4, e5, e6] at hc ⊢
+        split
+        · omega
+        · split <;> omega
+      have := bound a hx.1.1.1; have := bound b hx.1.1.2; have := bound c hx.1.2; have := bound d hx.2
+      simp only [Option.some.injEq] at h
+      omega
+    · cases h
+  show decodeF 6 _ = _
+  rw [decodeF_u, readU_bmp a b c d [] n h hs hb]
+  rfl
+
+/-- a high surrogate escape that is not followed by a low surrogate escape, and a low surrogate
+escape on its own, denote no character: lowering reports a diagnostic -/
+theorem decode_lone_surrogate (a b c d : Char) (n : Nat) (h : hex4 a b c d = some n)
+    (hs : 0xD800 ≤ n ∧ n < 0xE000) (tail : List Char) (ht : ∀ r, tail ≠ '\\' :: r) :
+    lowerStr ('\\' :: 'u' :: a :: b :: c :: d :: tail) = none := by
+  show decodeF (tail.length + 6) _ = _
+  rw [decodeF_u]
+  by_cases hh : n < 0xDC00
+  · rw [readU_lone_high a b c d tail n h hs.1 hh
+      (fun a' b' c' d' r lo e _ => absurd e (ht _))]
+  · rw [readU_lone_low a b c d tail n h (by omega) hs.2]
+
+/-- round trip with the all-escapes encoder (one `\u` escape in the BMP, a surrogate pair above):
+every string has such a spelling, the lexer accepts it, lowering decodes it back -/
+theorem decode_escapeAllU (s : List Char) :
+    accepts (escapeAllU s) = true ∧ lowerStr (escapeAllU s) = some s :=
+  ⟨acceptsF_escapeAllU s _ (Nat.le_refl _), decodeF_escapeAllU s _ (Nat.le_refl _)⟩
+
+example : escapeAllU [Char.ofNat 0x20000, 'é'] = "\\ud840\\udc00\\u00e9".toList := by decide
+example : lowerStr "\\uD840\\uDC00".toList = some [Char.ofNat 0x20000] := by decide
+example : lowerStr "\\uDBFF\\uDFFF".toList = some [Char.ofNat 0x10FFFF] := by decide
+example : lowerStr "\\ud800\\u0041".toList = none := by decide
+example : lowerStr "\\udc00\\ud800".toList = none := by decide
+
 /-- a multi-line string literal (every line: blanks, the `\\` marker, raw content) denotes its
 contents joined by line feeds; nothing inside is an escape -/
 theorem multiline_fidelity (ls : List (List Char × List Char)) (hne : ls ≠ [])
